@@ -165,7 +165,8 @@ type run = {
   mutable firststep : bool array;
   mutable limbo : (icall * bool) list;   (* calls that panicked: their blocks stay touched *)
   mutable iheld : (int * int) list;      (* blocks held by the client, from the implementation's results *)
-  mutable offline : (int * int) list;    (* (tree, event counter when its offline call returned) *)
+  mutable offline : (int * int) list;    (* C04/C10 view: trees whose offline returned ok and no online has returned ok since *)
+  mutable off15 : (int * int) list;      (* C15 view: (tree, event counter when its offline call returned); cleared when an online STARTS *)
   mutable clock : int;                   (* counts CALL / S / RET lines *)
   mutable run_panics : int;
   mutable post_drained : bool;
@@ -188,7 +189,7 @@ type run = {
 let r =
   { id = ""; scenario = ""; mode = ""; cfg = ""; g = { hord = nat_of_int 9; tlog = nat_of_int 2 };
     pol = (fun _ _ _ -> PInvalid); polname = ""; classes = []; dflt = 0; hf = 512; tf = 2048; thuge = 4; nframes = 0; nthreads = 0;
-    ms = None; diverged = false; cur = [||]; started = [||]; sawmark = [||]; firststep = [||]; limbo = []; iheld = []; offline = []; clock = 0; run_panics = 0;
+    ms = None; diverged = false; cur = [||]; started = [||]; sawmark = [||]; firststep = [||]; limbo = []; iheld = []; offline = []; off15 = []; clock = 0; run_panics = 0;
     post_drained = false; post_stats = None; last_stats = None; pending_tstats = None; pending_validate = None; post_tstats = None; post_validate = None; end_dump = None; msgs = [];
     sched = "?"; tids = Buffer.create 64; nontrivial = false; prev = -1; nsteps = 0; active = false }
 
@@ -362,7 +363,7 @@ let account ctx call impl started =
             end;
             (* C15 *)
             let t = f / r.tf in
-            (match List.assoc_opt t r.offline with
+            (match List.assoc_opt t r.off15 with
             | Some since when since < started ->
                 oracle "[C15]" (Printf.sprintf "%s %s returns frame %d of tree %d, which is offline" ctx (show_icall call) f t)
             | _ -> ())
@@ -372,14 +373,19 @@ let account ctx call impl started =
       if (not is_panic) && impl <> "ok" then
         oracle "[C03]" (Printf.sprintf "%s: free of a held block %s [%s]: %s" ctx (if ctx = "post-run" then "failed in the post phase:" else "returned") impl (show_icall call));
       ignore (f, o)
-  | IChange (Some i, _, _, _, "offline") -> if impl = "ok" then r.offline <- (i, r.clock) :: List.remove_assoc i r.offline
+  | IChange (Some i, _, _, _, "offline") ->
+      if impl = "ok" then begin
+        r.offline <- (i, r.clock) :: List.remove_assoc i r.offline;
+        r.off15 <- (i, r.clock) :: List.remove_assoc i r.off15
+      end
+  | IChange (Some i, _, _, _, "online") -> if impl = "ok" then r.offline <- List.remove_assoc i r.offline
   | _ -> ()
 
 let start_call ctx call =
   match call with
   | IPut (f, o, _, _) ->
       if not (take_block (f, o)) then note "CORR" "[scenario]" (Printf.sprintf "%s frees a block that is not held: %s" ctx (show_icall call))
-  | IChange (Some i, _, _, _, "online") -> r.offline <- List.remove_assoc i r.offline
+  | IChange (Some i, _, _, _, "online") -> r.off15 <- List.remove_assoc i r.off15
   | IChange (None, _, _, _, op) when op <> "-" -> note "CORR" "[scenario]" "online/offline by search is not tracked by the oracles"
   | _ -> ()
 
@@ -875,6 +881,7 @@ let suite file keys =
           r.diverged <- false;
           r.iheld <- [];
           r.offline <- [];
+          r.off15 <- [];
           r.clock <- 0;
           r.run_panics <- 0;
           r.post_drained <- false;
